@@ -285,7 +285,7 @@ func serverFlood(c *Ctx, r *Rng, n int) {
 
 func init() {
 	props["C02"] = func(c *Ctx) {
-		c.Res.Rule = "datagrams: arbitrary bytes (0..4200), structured header+TLV datagrams with one mutation (C01's generator), and datagrams whose attributes carry the types (and vendor framing) every shipped helper class addresses with adversarial values (wrong sizes, tag bytes, salt bits, sub-attribute lengths 0/1/2/255, truncated Vendor-Specific payloads). Each is run, under a panic guard and a 10 s watchdog, through Parse, ParseAttributes, both authenticity predicates (incl. nil secrets and swapped arguments), and when it parses: all 14 typed decoders and both password decoders on every attribute (incl. nil secret and short authenticator), Get/Gets/Lookup/GetString(s)/LookupString/String of every shipped helper whose attribute or vendor occurs, and debug.Dump with two dictionaries; Parse results and a read-only helper script are compared with the Coq models; valid Tunnel-Password encryptions with every interesting embedded length octet are decoded directly and through the generated getter; a real PacketServer on loopback UDP is flooded with the same three kinds of datagrams interleaved with authentic requests: every authentic request must be answered and the handler must only ever see datagrams Parse accepts. non-trivial = datagram that passes the first length test"
+		c.Res.Rule = "datagrams: arbitrary bytes (0..4200), structured header+TLV datagrams with one mutation (C01's generator), and datagrams whose attributes carry the types (and vendor framing) every shipped helper class addresses with adversarial values (wrong sizes, tag bytes, salt bits, sub-attribute lengths 0/1/2/255, truncated Vendor-Specific payloads). Each is run, under a panic guard and a 10 s watchdog, through Parse, ParseAttributes, both authenticity predicates (incl. nil secrets and swapped arguments), and when it parses: all 14 typed decoders and both password decoders on every attribute (incl. nil secret and short authenticator), Get/Gets/Lookup/GetString(s)/LookupString/String of every shipped helper whose attribute or vendor occurs, and debug.Dump with two dictionaries; Parse results and a read-only helper script are compared with the Coq models; valid Tunnel-Password encryptions with every interesting embedded length octet are decoded directly and through the generated getter; a real PacketServer on loopback UDP is flooded with the same three kinds of datagrams interleaved with authentic requests: every authentic request must be answered and the handler must only ever see datagrams Parse accepts; a second server with InsecureSkipVerify (child process) gets every datagram length 0..23 plus the same garbage and must keep answering. non-trivial = datagram that passes the first length test"
 		c.Res.Extra = map[string]interface{}{}
 		r := c.Rng.Fork()
 		sec := []byte("s3cr3t")
@@ -374,6 +374,8 @@ func init() {
 			}
 		}
 		serverFlood(c, r, c.N(400, 6000))
+		runSubScenario(c, "c02-flood-skipverify", "PacketServer with InsecureSkipVerify fed datagrams of every length 0..23, garbage and malformed packets, between valid requests",
+			"a packet server fed arbitrary datagrams keeps serving (no panic in the serve loop, no hang), also when it does not verify requests")
 		c.Flush()
 		var need []string
 		for _, k := range []string{"arbitrary", "hostile-typed+parsed", "valid+parsed", "server-flood", "server-dispatched", "server-truncated-after-longer", "crafted-tunnel-password"} {
@@ -391,3 +393,62 @@ func init() {
 		c.RequireTags(need...)
 	}
 }
+
+// a server that does not verify requests (InsecureSkipVerify) sees every datagram, however short, in its parser:
+// runs in a child process because a panic in the serve loop cannot be recovered
+func scenarioFloodSkipVerify() (bool, string) {
+	sec := []byte("flood-secret")
+	pc, err := net.ListenPacket("udp", "127.0.0.1:0")
+	if err != nil {
+		return true, "skipped: " + err.Error()
+	}
+	srv := &radius.PacketServer{
+		SecretSource: radius.StaticSecretSource(sec),
+		Handler: radius.HandlerFunc(func(w radius.ResponseWriter, req *radius.Request) {
+			w.Write(req.Response(radius.CodeAccessAccept))
+		}),
+		InsecureSkipVerify: true,
+		ErrorLog:           log.New(io.Discard, "", 0),
+	}
+	go srv.Serve(pc)
+	cl, err := net.Dial("udp", pc.LocalAddr().String())
+	if err != nil {
+		return true, "skipped: " + err.Error()
+	}
+	defer cl.Close()
+	r := NewRng(77)
+	buf := make([]byte, 4096)
+	for i := 0; i < 400; i++ {
+		var d []byte
+		switch i % 5 {
+		case 0:
+			d = r.Bytes(i / 5 % 24) // every length 0..23
+		case 1:
+			d = r.Bytes(r.Intn(80))
+		case 2:
+			d, _ = genDatagram(r)
+		case 3:
+			d = hostileTyped(r)
+		default:
+			p := radius.New(radius.CodeAccessRequest, sec)
+			p.Identifier = byte(i)
+			p.Add(1, radius.Attribute("u"))
+			d, _ = p.Encode()
+			cl.Write(d)
+			cl.SetReadDeadline(time.Now().Add(3 * time.Second))
+			if k, err := cl.Read(buf); err != nil || k < 20 || buf[1] != d[1] {
+				return false, fmt.Sprintf("after %d datagrams (lengths 0..23, garbage, malformed) the non-verifying server no longer answers a valid request: %v", i, err)
+			}
+			continue
+		}
+		cl.Write(d)
+		cl.SetReadDeadline(time.Now().Add(2 * time.Millisecond))
+		cl.Read(buf)
+	}
+	ctx, cancel := context.WithTimeout(context.Background(), 5*time.Second)
+	defer cancel()
+	srv.Shutdown(ctx)
+	return true, ""
+}
+
+func init() { scenarios["c02-flood-skipverify"] = scenarioFloodSkipVerify }
